@@ -105,8 +105,13 @@ EV_LOOP = '''        for evaluated_clip in obj.clip_evaluations:
 
 REWRITES = {
     # tag ids allocated 1-based: still unique, by content, resolvable (the property does not pin the numbering)
+    # (one repo test pins the first id to 0, so this one is property-preserving rather than test-preserving)
     "R1-tag-ids-one-based": [
         ("tag.py", "        return len(self._mapping)\n", "        return len(self._mapping) + 1\n"),
+    ],
+    # ids from a counter (largest id handed out so far + 1)
+    "R1b-tag-ids-from-max": [
+        ("tag.py", "        return len(self._mapping)\n", "        return max(self._mapping.values(), default=-1) + 1\n"),
     ],
     # tag ids from the size of the object store (equal to the key table whenever to_aoef is the only entry point)
     "R2-tag-id-from-store-size-rename-locals": [
@@ -170,7 +175,25 @@ REWRITES = {
          "        if stored is not None and obj.uuid in self._mapping:\n            return stored\n"
          "        return super().to_aoef(obj)\n\n"),
     ],
+    # modern annotations (PEP 604 / builtin generics / abstract Sequence) and reordered fields in object classes
+    "R10-annotations-modernised-fields-reordered": [
+        ("sequence.py", "    sound_events: List[UUID]\n    features: Optional[Dict[str, float]] = None\n    parent: Optional[UUID] = None\n",
+         "    parent: UUID | None = None\n    sound_events: list[UUID]\n    features: Optional[Dict[str, float]] = None\n"),
+        ("recording.py", "    tags: Optional[List[int]] = None\n", "    tags: Optional[typing.Sequence[int]] = None\n"),
+        ("recording.py", "import datetime\n", "import datetime\nimport typing\n"),
+        ("recording.py", "    owners: Optional[List[UUID]] = None\n", "    owners: list[UUID] | None = None\n"),
+        ("clip.py", "    uuid: UUID\n    recording: UUID\n    start_time: float\n    end_time: float\n",
+         "    uuid: UUID\n    start_time: float\n    end_time: float\n    recording: UUID\n"),
+    ],
+    # the sequence adapter lists root sequences first, then the others in conversion order (still parents first)
+    "R11-sequence-values-roots-first": [
+        ("sequence.py", "    def assemble_soundevent(\n        self,\n        obj: SequenceObject,\n    ) -> data.Sequence:\n",
+         "    def values(self):\n        vals = super().values()\n        if vals is None:\n            return None\n"
+         "        return [s for s in vals if s.parent is None] + [s for s in vals if s.parent is not None]\n\n"
+         "    def assemble_soundevent(\n        self,\n        obj: SequenceObject,\n    ) -> data.Sequence:\n"),
+    ],
 }
+
 
 MUTANTS = {
     # every Python Tag object gets its own id: the same (label, value) is defined several times
@@ -243,9 +266,13 @@ MUTANTS = {
          "            license=obj.license,\n        )\n        return _ASSEMBLED[_k]\n\n    def assemble_soundevent"),
     ],
     # with an audio directory the owners take a fast path that does not register them
+    # (first version of this mutant assigned the fast-path list *after* the registering comprehension had run:
+    #  an equivalent mutant, correctly not reported)
     "M12-owners-fast-path-with-audio-dir": [
-        ("recording.py", "            path = Path(obj.path).relative_to(self.audio_dir)\n",
-         "            path = Path(obj.path).relative_to(self.audio_dir)\n            owners = [owner.uuid for owner in obj.owners or []]\n"),
+        ("recording.py", REC_OWNERS,
+         "        if self.audio_dir is not None:\n            owners = [owner.uuid for owner in obj.owners or []]\n"
+         "        else:\n            owners = [\n                self._user_adapter.to_aoef(owner).uuid\n"
+         "                for owner in obj.owners or []\n            ]\n"),
     ],
     # the model run drops the sequence list (prediction sets keep it)
     "M13-model-run-omits-sequences": [
@@ -285,6 +312,127 @@ MUTANTS = {
         ("evaluation.py", "        for sequence in obj.sequences or []:\n            self.sequence_adapter.to_soundevent(sequence)\n",
          "        for sequence in reversed(obj.sequences or []):\n            self.sequence_adapter.to_soundevent(sequence)\n"),
     ],
+    # the creator of a sound event annotation is skipped when the user has no name, username or e-mail
+    "M19-sound-event-annotation-creator-truthiness-of-name": [
+        ("sound_event_annotation.py", "                self.user_adapter.to_aoef(obj.created_by).uuid\n                if obj.created_by\n",
+         "                self.user_adapter.to_aoef(obj.created_by).uuid\n                if obj.created_by and (obj.created_by.username or obj.created_by.name or obj.created_by.email)\n"),
+    ],
+    # sequence predictions: the sequence is converted only when the prediction has tags (otherwise only its id is taken)
+    "M20-sequence-prediction-without-tags-get-id": [
+        ("sequence_prediction.py", "            sequence=self.sequence_adapter.to_aoef(obj.sequence).uuid,\n",
+         "            sequence=(\n                self.sequence_adapter.to_aoef(obj.sequence).uuid\n                if obj.tags\n"
+         "                else self.sequence_adapter.get_id(obj.sequence)\n            ),\n"),
+    ],
+    # evaluation: matches are converted before the clip annotations / predictions and only their ids are kept for
+    # unmatched sources (source without target): the prediction is then defined only if the clip prediction lists it
+    # -- it always does (validator), so instead: the match list is written only for clip evaluations with a score
+    "M21-clip-evaluation-matches-need-score": [
+        ("clip_evaluation.py", "                if obj.matches\n                else None\n",
+         "                if obj.matches and obj.score is not None\n                else None\n"),
+    ],
+    # the task's clip is only given an id when the task has no status badge yet
+    "M22-task-without-badges-clip-get-id": [
+        ("annotation_task.py", "            clip=self.clip_adapter.to_aoef(obj.clip).uuid,\n",
+         "            clip=(\n                self.clip_adapter.to_aoef(obj.clip).uuid\n                if obj.status_badges\n"
+         "                else self.clip_adapter.get_id(obj.clip)\n            ),\n"),
+    ],
+    # sequences remember the parent's uuid without converting it when the parent has the same sound events
+    "M23-parent-with-same-sound-events-not-converted": [
+        ("sequence.py", SEQ_PARENT,
+         "        parent = None\n        if obj.parent:\n            if [s.uuid for s in obj.parent.sound_events] == [s.uuid for s in obj.sound_events]:\n"
+         "                parent = obj.parent.uuid\n            else:\n                parent = self.to_aoef(obj.parent).uuid\n"),
+    ],
+    # the evaluation set converts its evaluation tags through get_id when the set has no clip annotations
+    "M24-evaluation-tags-get-id-when-empty": [
+        ("evaluation_set.py", "            self.tag_adapter.to_aoef(tag).id for tag in obj.evaluation_tags\n",
+         "            (self.tag_adapter.to_aoef(tag).id if obj.clip_annotations else self.tag_adapter.get_id(tag))\n"
+         "            for tag in obj.evaluation_tags\n"),
+    ],
+    # notes: the author is registered only for notes that are issues, otherwise only its uuid is copied
+    "M25-note-author-registered-only-for-issues": [
+        ("note.py", NOTE_USER,
+         "        user_id = None\n        if note.created_by is not None:\n            if note.is_issue:\n"
+         "                user_id = self._user_adapter.to_aoef(note.created_by).uuid\n            else:\n"
+         "                user_id = note.created_by.uuid\n"),
+    ],
+    # a second save with the same audio directory reuses the user table of the first (class-level store)
+    "M26-user-store-shared-between-instances": [
+        ("user.py", "class UserAdapter(DataAdapter[data.User, UserObject, UUID, UUID]):\n",
+         "_USERS: dict = {}\n\n\nclass UserAdapter(DataAdapter[data.User, UserObject, UUID, UUID]):\n"
+         "    def __init__(self):\n        super().__init__()\n        self._aoef_store = _USERS\n\n"),
+    ],
+    # the evaluation document omits the sequence annotation list
+    "M27-evaluation-omits-sequence-annotations": [
+        ("evaluation.py", "            sequence_annotations=self.sequence_annotation_adapter.values(),\n", ""),
+    ],
+    # wiring: the task adapter of a project gets a clip adapter of its own
+    "M28-task-adapter-own-clip-adapter": [
+        ("annotation_project.py", "            or AnnotationTaskAdapter(\n                self.clip_adapter,\n",
+         "            or AnnotationTaskAdapter(\n                type(self.clip_adapter)(self.recording_adapter),\n"),
+    ],
+    # recordings keyed by their path ('the same file once')
+    "M29-recording-keyed-by-path": [
+        ("recording.py", "    def assemble_aoef(\n        self,\n        obj: data.Recording,\n",
+         "    @classmethod\n    def _get_soundevent_key(cls, obj: data.Recording):\n        return str(obj.path)\n\n"
+         "    def assemble_aoef(\n        self,\n        obj: data.Recording,\n"),
+    ],
+    # assembled tag objects are memoised by content across saves: a later save reuses an object carrying the id of an
+    # earlier one, which can coincide with a fresh id
+    "M30-tag-objects-memoised-by-content": [
+        ("tag.py", "class TagAdapter(DataAdapter[data.Tag, TagObject, Tuple[str, str], int]):  # type: ignore\n",
+         "_TAG_OBJECTS: dict = {}\n\n\nclass TagAdapter(DataAdapter[data.Tag, TagObject, Tuple[str, str], int]):  # type: ignore\n"),
+        ("tag.py", "        return TagObject(\n            id=obj_id,\n            key=data.key_from_term(obj.term),\n            value=obj.value,\n        )\n",
+         "        _k = (data.key_from_term(obj.term), obj.value)\n        if _k not in _TAG_OBJECTS:\n"
+         "            _TAG_OBJECTS[_k] = TagObject(id=obj_id, key=_k[0], value=obj.value)\n        return _TAG_OBJECTS[_k]\n"),
+    ],
+    # the sequence adapter writes its list sorted by uuid ('stable output')
+    "M31-sequence-values-sorted-by-uuid": [
+        ("sequence.py", "    def assemble_soundevent(\n        self,\n        obj: SequenceObject,\n    ) -> data.Sequence:\n",
+         "    def values(self):\n        vals = super().values()\n        return None if vals is None else sorted(vals, key=lambda s: str(s.uuid))\n\n"
+         "    def assemble_soundevent(\n        self,\n        obj: SequenceObject,\n    ) -> data.Sequence:\n"),
+    ],
+    # sound events of a sequence are registered only for the first sequence that mentions them (set of seen uuids kept
+    # on the class): a second save in the process does not define them
+    "M32-sequence-sound-events-seen-set-on-class": [
+        ("sequence.py", "class SequenceAdapter(DataAdapter[data.Sequence, SequenceObject, UUID, UUID]):\n",
+         "class SequenceAdapter(DataAdapter[data.Sequence, SequenceObject, UUID, UUID]):\n    _seen: set = set()\n\n"),
+        ("sequence.py", "            self.soundevent_adapter.to_aoef(sound_event).uuid\n",
+         "            (\n                sound_event.uuid\n                if sound_event.uuid in self._seen\n"
+         "                else (self._seen.add(sound_event.uuid) or self.soundevent_adapter.to_aoef(sound_event).uuid)\n            )\n"),
+    ],
+}
+
+
+# changes of *shape* (robustness): the check must give a verdict (never exit 2); a tie that cannot be re-established
+# is a broken obligation (`no-failing-input-found` unless the property really fails)
+SHAPES = {
+    # a new reference field nothing fills: the reference table no longer matches the declared fields
+    "S1-new-reference-field-unfilled": [
+        ("clip.py", "    features: Optional[Dict[str, float]] = None\n\n\nclass ClipAdapter",
+         "    features: Optional[Dict[str, float]] = None\n    annotator: Optional[UUID] = None\n\n\nclass ClipAdapter"),
+    ],
+    # `get_id` is renamed throughout the package (harmless): the adapter protocol tie cannot be driven any more
+    "S2-get-id-renamed-everywhere": [
+        ("*", "get_id(", "lookup_id("),
+    ],
+    # the recording-set schema loses its `users` list: pydantic drops the keyword silently, owners dangle
+    "S3-recording-set-schema-without-users": [
+        ("recording_set.py", "    tags: Optional[List[TagObject]] = None\n    users: Optional[List[UserObject]] = None\n",
+         "    tags: Optional[List[TagObject]] = None\n"),
+    ],
+    # a new reference field that *is* filled, by an id that nothing defines: the first owner's uuid as `contact`,
+    # taken without converting the user, in the sound event object (whose recording is written by its own adapter)
+    "S4-new-reference-field-filled-dangling": [
+        ("sound_event.py", "    features: Optional[Dict[str, float]] = None\n\n\nclass SoundEventAdapter",
+         "    features: Optional[Dict[str, float]] = None\n    contact: Optional[UUID] = None\n\n\nclass SoundEventAdapter"),
+        ("sound_event.py", "            geometry=obj.geometry,\n            uuid=obj.uuid,\n",
+         "            geometry=obj.geometry,\n            uuid=obj.uuid,\n"
+         "            contact=UUID(int=obj.uuid.int ^ 1),\n"),
+    ],
+    # tag ids are written negative (still unique and resolvable): the model's Nat ids cannot represent them
+    "S5-negative-tag-ids": [
+        ("tag.py", "        return len(self._mapping)\n", "        return -len(self._mapping) - 1\n"),
+    ],
 }
 
 
@@ -296,6 +444,13 @@ def run_one(name, edits, seed=0, tests=True):
     sh(f"git -C {SCRATCH} checkout -q -- src")
     by_file = {}
     for fn, old, new in edits:
+        if fn == "*":        # every occurrence in every file of the package
+            for f in sorted(os.listdir(AOEF)):
+                if f.endswith(".py"):
+                    src = by_file.get(f) or open(AOEF + f).read()
+                    if old in src:
+                        by_file[f] = src.replace(old, new)
+            continue
         src = by_file.get(fn)
         if src is None:
             src = open(AOEF + fn).read()
@@ -326,13 +481,15 @@ def run_one(name, edits, seed=0, tests=True):
 def main():
     want = sys.argv[1:]
     res = []
-    for group, table in (("R", REWRITES), ("M", MUTANTS)):
+    for group, table in (("R", REWRITES), ("M", MUTANTS), ("S", SHAPES)):
         for name, edits in table.items():
             if want and not any(w == name or w == group or name.startswith(w + "-") for w in want):
                 continue
             r = run_one(name, edits)
             expect = 0 if group == "R" else 1
             r["ok"] = (r.get("rc") == expect) and not (group == "M" and r["violations"] and "no-failing-input-found" in r["violations"][0])
+            if group == "S":
+                r["ok"] = r.get("rc") in (0, 1)
             print(json.dumps(r), flush=True)
             res.append(r)
     bad = [r["name"] for r in res if not r.get("ok")]
